@@ -1,6 +1,42 @@
-(* Properties/C02.v — derived Equal is exactly structural equality. *)
+(* Properties/C02.v — derived Equal is exactly structural equality.
+   Statements only; proofs are in Go/EqualProofs.v. *)
 From Verif Require Import Go.Ty Go.Val Go.Equal Go.EqualProofs.
 
+(* For every type and all well-typed (acyclic, NaN-free) values the generated comparison — in
+   both generator modes: body of a deriveEqual function (Top) and component expression (Fld) —
+   either is refused by the generator (Unsup) or returns exactly the structural equality
+   [spec_eq], which is total. *)
+Theorem C02_equal_is_structural : forall x e md t y,
+  has_type e t x = true -> has_type e t y = true ->
+  (exists b, spec_eq e t x y = Some b) /\
+  (eqm e md t x y = Unsup \/ eqm e md t x y = lift (spec_eq e t x y)).
+Proof. exact eqm_spec. Qed.
+Print Assumptions C02_equal_is_structural.
+
+Theorem C02_equal_never_panics : forall t x y,
+  has_type [] t x = true -> has_type [] t y = true ->
+  equal_model t x y <> Pan /\ equal_model t x y <> Stuck.
+Proof. exact equal_never_panics. Qed.
+Print Assumptions C02_equal_never_panics.
+
+Theorem C02_equal_top_eq_field : forall e t x y,
+  has_type e t x = true -> has_type e t y = true ->
+  eqm e Top t x y = Unsup \/ eqm e Fld t x y = Unsup \/ eqm e Top t x y = eqm e Fld t x y.
+Proof. exact equal_top_eq_field. Qed.
+Print Assumptions C02_equal_top_eq_field.
+
+Theorem C02_curried_eq_binary : forall t x y, equal_curried_model t x y = equal_model t x y.
+Proof. exact curried_eq_binary. Qed.
+Print Assumptions C02_curried_eq_binary.
+
+(* Go's == (used by the generator on comparable types) is structural equality there *)
+Theorem C02_go_eqeq_is_structural : forall t, can_equal t = true -> forall e x y,
+  has_type e t x = true -> has_type e t y = true ->
+  spec_eq e t x y = Some (go_eqeq x y).
+Proof. exact go_eqeq_spec. Qed.
+Print Assumptions C02_go_eqeq_is_structural.
+
+(* the pinned tree before fix 703d315: bytes.Equal alone ignored nil-ness of []byte fields *)
 Theorem C02_equal_bytes_old_refuted :
   bytes_equal_old VNilS (VSl 1 [] []) = Ok true
   /\ spec_eq [] bytes_struct (VSt [VNilS]) (VSt [VSl 1 [] []]) = Some false
